@@ -404,6 +404,38 @@ def run_growth_guard(ctx, rnd):
                     ctx.nontriv(('growth', tuple(pattern), size, n))
 
 
+def run_stop_passes(ctx, rnd):
+    """passes that finish by answering STOP (includes, blank, comments), through the real TestManager.check_pass_result under
+    every reporting switch (--shaddap, --die-on-pass-bug, --no-give-up): the pass run ends right after the STOP, long before
+    any give-up limit"""
+    from cvise.passes.includes import IncludesPass
+    from cvise.passes.blank import BlankPass
+    from cvise.passes.comments import CommentsPass
+    texts = ['#include <a.h>\n#include "b.h"\nint x;\n', '\n\n a;\n\n#\n  \n', '/* a */ x; // b\n y /* c */;\n', 'int z;\n']
+    for cls in (IncludesPass, BlankPass, CommentsPass):
+        for text in texts:
+            for silent, die, nogiveup in ((False, False, False), (True, False, False), (True, False, True), (False, True, False), (True, True, False)):
+                for verdict in (1, 0):
+                    sc = {'files': [('t.c', text)], 'rules': [([], verdict)], 'passes': [],
+                          'cfg': {'N': rnd.choice([1, 2, 3]), 'no_cache': True, 'silent': silent, 'die': die, 'nogiveup': nogiveup, 'giveup': 300},
+                          'sched': [rnd.randint(0, 7) for _ in range(20)], 'real_pass': cls.__name__}
+                    p = cls(None, {})
+                    p.max_transforms = None
+                    o = driver.run_scenario(sc, ctx.tmp, real_passes=[p])
+                    ctx.evaluations += 1
+                    ctx.count('stop-ending-pass:' + cls.__name__)
+                    rep = {'scenario': sc, 'mode': 'stop-pass', 'pass': cls.__name__}
+                    if o.diverged:
+                        ctx.violation('driver-diverged', f'{cls.__name__} on {text!r} did not finish', rep)
+                        continue
+                    ps = o.passes[0]
+                    bound = 2 * (text.count('\n') + 3) + sc['cfg']['N']
+                    if ps['executed'] > bound:
+                        ctx.violation('stop-ignored', f'{cls.__name__} on {text!r} (shaddap={silent}, die-on-pass-bug={die}, no-give-up={nogiveup}, every candidate '
+                                      f'{"accepted" if verdict == 0 else "rejected"}): {ps["executed"]} candidates were started; the pass answers STOP after at most {bound}', rep)
+                    ctx.nontriv(('stop-pass', cls.__name__, text, silent, die, nogiveup, verdict))
+
+
 def run_giveup(ctx, rnd):
     """a round whose candidates never succeed is abandoned after GIVEUP + N + 1 candidates (cround_giveup)"""
     for it in range(20 if ctx.quick() else 200):
@@ -498,11 +530,15 @@ def explore(ctx):
     run_main_loop(ctx, rnd)
     run_growth_guard(ctx, rnd)
     run_giveup(ctx, rnd)
+    run_stop_passes(ctx, rnd)
     ctx.sample({'passes': len(table), 'texts_per_pass': len(small) + len(rn), 'exhaustive_texts': len(ex)})
 
 
 def replay(ctx, payload):
     r = payload['replay']
+    if r.get('mode') == 'stop-pass':
+        run_stop_passes(ctx, random.Random(1))
+        return
     if 'scenario' in r and r.get('mode') == 'growth':
         run_growth_guard(ctx, random.Random(1))
         return
